@@ -140,6 +140,11 @@ def r19_4_5(ctx) -> None:
         kw = {k.arg: k.value for k in dumps[0].keywords}
         sep = kw.get("separators")
         oke = isinstance(sep, ast.Tuple) and [const_value(e) for e in sep.elts] == [",", ":"]
+        # the text is then encoded as ASCII: non-ASCII members must be escaped by the serializer
+        ea = kw.get("ensure_ascii")
+        enc_ascii = any(isinstance(n, ast.Call) and norm(n.func) == "to_bytes" and len(n.args) >= 2 and const_value(n.args[1]) == "ascii" for n in fn_nodes(je))
+        if enc_ascii:
+            oke = oke and (ea is None or is_const(ea, True))
     ctx.check(oke, "R19.5", je, je.node, je.short, "json_b64encode does not use compact separators", "separators=(',', ':')", construct="json_b64encode separators")
     # to_bytes is the single text->octets conversion; it must encode strictly
     tb_ = P.func("util:to_bytes")
